@@ -8,7 +8,7 @@
  "variants": {"pop": ["-DV_SUBST=0"], "subst": ["-DV_SUBST=1"]},
  "kind": "bounded",
  "bound": "pop: a context stack of 0..3 frames, each with 0..2 pending tokens and belonging to an object-like macro or to none; subst: one frame of a function-like macro with parameters (a, b) whose next tokens are one of: a parameter, `#` parameter, another identifier, a number; arguments of 0..2 tokens",
- "timeout": 300, "replay": false,
+ "timeout": 300,
  "assumes": ["arrayadd() is a fixed-capacity append (UTIL.arrayadd); free() is a no-op (the argument storage of the finished macro is released: not observable)",
              "macroparam() is the real one (PP.macroparam) with one-character parameter names"]
 }
